@@ -31,6 +31,17 @@ pub fn init_once() {
     ONCE.call_once(|| gl::init(0));
 }
 
+/// What `init(1)` does on top of `init(0)`: debug logging on.  The logger itself is installed once
+/// per process; the level is process-global and is switched per scenario.
+pub fn set_debug_logging(on: bool) {
+    log::set_max_level(if on { log::LevelFilter::Debug } else { log::LevelFilter::Off });
+}
+
+/// `getLog()` of the host: moves the collected log into the result buffer.
+pub fn drain_log() {
+    gl::get_log();
+}
+
 pub fn load_config(text: &str) -> bool {
     let s = AbiStr::new(text);
     gl::load_config(s.ptr, s.len)
